@@ -3,7 +3,7 @@
 //! the real `rand 0.8` and feeds them from the simulated entropy source.
 
 use super::simrng::SimRng;
-use simcore::types::*;
+use crate::types::*;
 use palette::hues::Cam16Hue;
 use palette::{Alpha, IsWithinBounds, LabHue, LuvHue, OklabHue, RgbHue};
 use rand::distributions::uniform::{SampleUniform, Uniform, UniformSampler};
